@@ -705,6 +705,8 @@ def fs_fidelity(seed, n_jobs=12):
         if len(sc["metrics"]) < 2 or sc.get("offgrid"):
             continue
         K = run_twin(sc)["total_ops"]
+        kinds = run_twin(sc)["op_kinds"]
+        order_only = 0
         agree = 0
         first_diff = None
         for k in range(K + 1):
@@ -749,11 +751,17 @@ def fs_fidelity(seed, n_jobs=12):
             shutil.rmtree(root, ignore_errors=True)
             real = _normalise_tree(realfiles)
             ok = sim == real and code in (0, 17)
+            if not ok and code in (0, 17) and 0 < k < len(kinds) and kinds[k - 1] == kinds[k] == "remove" and len(sim) == len(real) \
+                    and {n: d for n, d in sim.items() if n in real} == {n: d for n, d in real.items() if n in sim}:
+                # between two removes: which of the files goes first is the iteration order of a set of
+                # path strings, which differs between /simfs/... and the real root
+                ok = True
+                order_only += 1
             agree += ok
             if not ok and first_diff is None:
                 first_diff = {"crash_before_op": k, "child_exit": code, "only_sim": sorted(set(sim) - set(real))[:4], "only_real": sorted(set(real) - set(sim))[:4],
                               "differ": [n for n in sim if n in real and sim[n] != real[n]][:4]}
-        rows.append({"job": sample_repr(sc), "crash_points": K + 1, "agree": agree, "first_difference": first_diff})
+        rows.append({"job": sample_repr(sc), "crash_points": K + 1, "agree": agree, "agree_up_to_clean_up_order": order_only, "first_difference": first_diff})
         print(f"fs-fidelity job {len(rows)}: {agree}/{K + 1} crash points leave the same files in SimFS and on tmpfs")
     rep = {"seed": seed, "rows": rows, "agree": sum(r["agree"] for r in rows), "total": sum(r["crash_points"] for r in rows), "wall_s": round(time.time() - t0, 1),
            "note": "informational: surviving files after a simulated crash before FS-op k vs after a real os._exit() before the k-th mutating call (mkdir, create, buffered write at flush/close, replace, remove) on tmpfs; never affects any check's exit code"}
